@@ -1,2 +1,125 @@
-//! C17 driver (syscall family): filled in below.
-pub fn main(_args: &[String]) { eprintln!("c17 driver not built yet"); std::process::exit(2); }
+//! C17 driver: call trees over syscall / named_syscall / spawned_syscall, executed on a real World.
+//! Line format: `id=kind:fields:children ... top=ids` (see tools/gen_c17.py). Prints body and return events.
+use bevy::prelude::*;
+use bevy_cobweb::prelude::*;
+use std::collections::HashMap;
+use std::sync::{Arc, Mutex};
+
+static LOG: Mutex<Vec<String>> = Mutex::new(Vec::new());
+static SIDS: Mutex<Option<HashMap<u32, SysId>>> = Mutex::new(None);
+fn log(s: String) { LOG.lock().unwrap_or_else(|e| e.into_inner()).push(s); }
+
+#[derive(Clone, Debug)]
+enum Node
+{
+    Sc{ id: u32, t: u32, v: u32, kids: Vec<u32> },
+    Nm{ id: u32, name: u32, t: u32, v: u32, kids: Vec<u32> },
+    Sy{ id: u32, sid: u32, v: u32, kids: Vec<u32> },
+    Sp{ sid: u32, t: u32 },
+    Ds{ sid: u32 },
+}
+
+#[derive(Clone)]
+pub struct Arg { id: u32, key: String, v: u32, kids: Vec<u32>, nodes: Arc<HashMap<u32, Node>> }
+
+fn sysfn<const T: usize>(In(arg): In<Arg>, mut local: Local<u32>, mut c: Commands) -> u32
+{
+    *local += 1;
+    log(format!("body {} {} t{} v{} l{}", arg.id, arg.key, T, arg.v, *local));
+    let kids = arg.kids.clone();
+    let nodes = arg.nodes.clone();
+    c.queue(move |w: &mut World| { for k in kids.iter() { exec(w, *k, &nodes); } });
+    arg.v * 100 + *local
+}
+
+fn exec(world: &mut World, id: u32, nodes: &Arc<HashMap<u32, Node>>)
+{
+    match nodes[&id].clone()
+    {
+        Node::Sc{ id, t, v, kids } =>
+        {
+            let arg = Arg{ id, key: format!("sys{t}"), v, kids, nodes: nodes.clone() };
+            let out = match t { 0 => syscall(world, arg, sysfn::<0>), 1 => syscall(world, arg, sysfn::<1>), _ => syscall(world, arg, sysfn::<2>) };
+            log(format!("ret {id} {out}"));
+        }
+        Node::Nm{ id, name, t, v, kids } =>
+        {
+            let arg = Arg{ id, key: format!("named{name}.{t}"), v, kids, nodes: nodes.clone() };
+            let out = match t { 0 => named_syscall(world, name, arg, sysfn::<0>), 1 => named_syscall(world, name, arg, sysfn::<1>), _ => named_syscall(world, name, arg, sysfn::<2>) };
+            log(format!("ret {id} {out}"));
+        }
+        Node::Sy{ id, sid, v, kids } =>
+        {
+            let arg = Arg{ id, key: format!("spawned{sid}"), v, kids, nodes: nodes.clone() };
+            let sysid = SIDS.lock().unwrap().as_ref().unwrap().get(&sid).copied().unwrap_or(SysId::new(Entity::from_raw(0x7F00_0000 + sid)));
+            match spawned_syscall::<In<Arg>, u32>(world, sysid, arg)
+            {
+                Ok(out) => log(format!("ret {id} {out}")),
+                Err(_) => log(format!("ret {id} err")),
+            }
+        }
+        Node::Sp{ sid, t } =>
+        {
+            let known = SIDS.lock().unwrap().as_ref().unwrap().contains_key(&sid);
+            if !known
+            {
+                let sysid = match t { 0 => spawn_system(world, sysfn::<0>), 1 => spawn_system(world, sysfn::<1>), _ => spawn_system(world, sysfn::<2>) };
+                SIDS.lock().unwrap().as_mut().unwrap().insert(sid, sysid);
+            }
+        }
+        Node::Ds{ sid } =>
+        {
+            let sysid = SIDS.lock().unwrap().as_ref().unwrap().get(&sid).copied();
+            if let Some(s) = sysid { if world.get_entity(s.entity()).is_ok() { world.despawn(s.entity()); } }
+        }
+    }
+}
+
+fn parse_line(line: &str) -> (HashMap<u32, Node>, Vec<u32>)
+{
+    let mut nodes = HashMap::new();
+    let mut top = Vec::new();
+    let kids = |s: &str| -> Vec<u32> { if s.is_empty() { vec![] } else { s.split(',').map(|x| x.parse().unwrap()).collect() } };
+    let num = |s: &str| s.parse::<u32>().unwrap();
+    for w in line.split_whitespace()
+    {
+        let (k, v) = w.split_once('=').unwrap();
+        if k == "top" { top = kids(v); continue; }
+        let id = num(k);
+        let p: Vec<&str> = v.split(':').collect();
+        let node = match p.as_slice()
+        {
+            ["sc", t, v, ch] => Node::Sc{ id, t: num(t), v: num(v), kids: kids(ch) },
+            ["nm", name, t, v, ch] => Node::Nm{ id, name: num(name), t: num(t), v: num(v), kids: kids(ch) },
+            ["sy", sid, v, ch] => Node::Sy{ id, sid: num(sid), v: num(v), kids: kids(ch) },
+            ["sp", sid, t] => Node::Sp{ sid: num(sid), t: num(t) },
+            ["ds", sid] => Node::Ds{ sid: num(sid) },
+            _ => panic!("bad node {w}"),
+        };
+        nodes.insert(id, node);
+    }
+    (nodes, top)
+}
+
+pub fn run_line(line: &str) -> String
+{
+    LOG.lock().unwrap_or_else(|e| e.into_inner()).clear();
+    *SIDS.lock().unwrap() = Some(HashMap::new());
+    let (nodes, top) = parse_line(line);
+    let nodes = Arc::new(nodes);
+    let mut world = World::new();
+    for id in top { exec(&mut world, id, &nodes); }
+    std::mem::take(&mut *LOG.lock().unwrap_or_else(|e| e.into_inner())).join(" | ")
+}
+
+pub fn main(args: &[String])
+{
+    for f in args
+    {
+        let text = std::fs::read_to_string(f).unwrap();
+        let lines: Vec<String> = text.lines().map(|l| {
+            std::panic::catch_unwind(|| run_line(l)).unwrap_or_else(|_| "panic".to_string())
+        }).collect();
+        std::fs::write(format!("{f}.impl.log"), lines.join("\n") + "\n").unwrap();
+    }
+}
